@@ -62,7 +62,7 @@ func vC44_wtell(x *workPullingProducerController, ctx *ReceiveContext, to *PID, 
 				if i >= 0 && i < len(b.unconfirmed) && i < vC44_lim {
 					e := b.unconfirmed[i]
 					j := vC44_idIndex(e.messageID)
-					same = same && e.workerSeq == sm.Seq() && sm.MessageID() == e.messageID && j >= 0 && vC42x_is1(sm.Payload(), vC44_pay[j])
+					same = same && e.workerSeq == sm.Seq() && sm.MessageID() == e.messageID && j >= 0 && vC44_is1(sm.Payload(), vC44_pay[j])
 				} else {
 					same = false
 				}
@@ -83,7 +83,7 @@ func vC44_wtell(x *workPullingProducerController, ctx *ReceiveContext, to *PID, 
 	vRD_record(to, message)
 }
 
-func vC42x_is1(b []byte, v byte) bool { return len(b) == 1 && b[0] == v }
+func vC44_is1(b []byte, v byte) bool { return len(b) == 1 && b[0] == v }
 
 // number of times job j is held (pending pool + every binding's unconfirmed list), checking payload/storeSeq on the way
 func vC44_count(x *workPullingProducerController, j int) (int, bool) {
@@ -91,7 +91,7 @@ func vC44_count(x *workPullingProducerController, j int) (int, bool) {
 	for i := 0; i < vC44_lim; i++ {
 		if i < len(x.pending) && x.pending[i].messageID == vC44_ids[j] {
 			n++
-			intact = intact && vC42x_is1(x.pending[i].payload.bytes, vC44_pay[j]) && x.pending[i].storeSeq == vC44_storeSeq[j]
+			intact = intact && vC44_is1(x.pending[i].payload.bytes, vC44_pay[j]) && x.pending[i].storeSeq == vC44_storeSeq[j]
 		}
 	}
 	for w := 0; w < 2; w++ {
@@ -100,7 +100,7 @@ func vC44_count(x *workPullingProducerController, j int) (int, bool) {
 			for i := 0; i < vC44_lim; i++ {
 				if i < len(b.unconfirmed) && b.unconfirmed[i].messageID == vC44_ids[j] {
 					n++
-					intact = intact && vC42x_is1(b.unconfirmed[i].payload.bytes, vC44_pay[j]) && b.unconfirmed[i].storeSeq == vC44_storeSeq[j]
+					intact = intact && vC44_is1(b.unconfirmed[i].payload.bytes, vC44_pay[j]) && b.unconfirmed[i].storeSeq == vC44_storeSeq[j]
 				}
 			}
 		}
